@@ -28,15 +28,28 @@ TInit == /\ t \in 1 .. Len(Traces) /\ l = 1
 Ev == Traces[t].ev
 Before == IF Traces[t].fan THEN Traces[t].from ELSE mem
 
+\* C07 three-way: a bundle event may carry the replies (`singles') and final memory (`smem') obtained by sending
+\* its members one by one to an identically initialised device; the member replies located through the bundle's
+\* offset table must be exactly those (a member whose single form was aborted outside CIP, <<>>, is not compared).
+SinglesOK(e) ==
+  IF e.r.svc # "multi" THEN TRUE ELSE
+  LET rs == DecMSPBody(SubSeq(e.rpy, 5, Len(e.rpy))) IN
+     /\ Len(rs) = Len(e.singles)
+     /\ \A i \in 1 .. Len(rs) : e.singles[i] = <<>> \/ e.singles[i] = rs[i]
+     /\ e.smem = e.mem
+
 TStep == /\ l <= Len(Ev)
          /\ Ev[l].mem \in After(Traces[t].cfg, Before, Ev[l].r, Ev[l].rpy)
+         /\ SinglesOK(Ev[l])
          /\ mem' = Ev[l].mem /\ l' = l + 1
          /\ UNCHANGED <<t, op, depth>>
 
 TNext == TStep
 TSpec == TInit /\ [][TNext]_tvars
 
-Why == IF After(Traces[t].cfg, Before, Ev[l].r, Ev[l].rpy) = {} THEN "reply-not-allowed" ELSE "memory-differs"
+Why == IF After(Traces[t].cfg, Before, Ev[l].r, Ev[l].rpy) = {} THEN "reply-not-allowed"
+       ELSE IF Ev[l].mem \notin After(Traces[t].cfg, Before, Ev[l].r, Ev[l].rpy) THEN "memory-differs"
+       ELSE "bundle-differs-from-singles"
 \* total verdict: a trace that cannot be continued prints where and why; TLC keeps going
 Verdict == (l <= Len(Ev) /\ ~ENABLED TStep) => PrintT(ToJson([tid |-> t, at |-> l, why |-> Why]))
 
